@@ -9,6 +9,7 @@ CONSTANTS
   FinishFull = TRUE
   With256 = FALSE
   Targets = {65534, 65536, 131070, 131072}
+  SharedBuf = FALSE
 INIT Init
 NEXT Next
 INVARIANT EncodeDecode
